@@ -326,10 +326,22 @@ func ledgerViolations(before, after []modelRec) []string {
 func corrActions(seed uint64, n int, tier string, out string, replay string) {
 	m := StartModel()
 	defer m.Close()
-	rep := NewReport("C01", "actions", seed, "case = history of 3-8 install/upgrade/rollback/uninstall operations on one release name with random flags (replace, atomic, cleanup-on-fail, keep-history, max-history, no-hooks, dry-run, rollback target) and a fault plan per operation (each cluster phase and each storage write: ok / fail / crash = process death with everything frozen), run through the real action package over the Secret, ConfigMap or memory driver and the simulated API server; after every operation the stored ledger (revision, status, chart), the outcome and the sequence of storage writes are compared with the Lean ledger model, and the ledger invariants are monitored on the implementation's records; non-trivial = history with at least 3 operations that changed the ledger; distinct = hash of the history")
-	for _, id := range caseSeq("actions", seed, n) {
+	rep := NewReport("C01", "actions", seed, "case = history of 3-8 install/upgrade/rollback/uninstall operations on one release name with random flags (replace, atomic, cleanup-on-fail, keep-history, max-history, no-hooks, dry-run, rollback target) and a fault plan per operation (each cluster phase and each storage write: ok / fail / crash = process death with everything frozen), run through the real action package over the Secret, ConfigMap or memory driver and the simulated API server; in addition the flag matrix: every combination of atomic / cleanup-on-fail / keep-history / no-hooks with every single cluster-side fault, each as the last operation of a short healthy history; after every operation the stored ledger (revision, status, chart), the outcome and the sequence of storage writes are compared with the Lean ledger model, and the ledger invariants are monitored on the implementation's records; non-trivial = history with at least 3 operations that changed the ledger; distinct = hash of the history")
+	ids := caseSeq("actions", seed, n)
+	if replayFile == "" {
+		// the flag matrix: every combination of atomic / cleanup-on-fail / keep-history / no-hooks with every single
+		// cluster-side fault (a failing hook failing at creation or at readiness), each on a short healthy history
+		for k := range actMatrix() {
+			ids = append(ids, caseID{Seed: seed, Index: matrixBase + k})
+		}
+	}
+	for _, id := range ids {
 		i, seed := id.Index, id.Seed
 		r := NewRng(seed, uint64(i))
+		if i >= matrixBase {
+			runHistoryMatrix(m, rep, r, i-matrixBase, seed, i)
+			continue
+		}
 		faultLevel := []int{0, 1, 1, 2}[i%4]
 		backend := []string{"secrets", "configmaps", "memory"}[i%3]
 		if backend == "memory" {
@@ -356,6 +368,81 @@ func newBackend(name string) driver.Driver {
 	d := driver.NewMemory()
 	d.SetNamespace("default")
 	return d
+}
+
+const matrixBase = 1 << 20
+
+// actMatrix: the probe operations of the flag matrix
+func actMatrix() []actOp {
+	var out []actOp
+	bools := []bool{false, true}
+	fault := func(op actOp, f string) actOp {
+		switch f {
+		case "preHook":
+			op.F.PreHook = "fail"
+		case "resources":
+			op.F.Resources = "fail"
+		case "wait":
+			op.F.Wait = "fail"
+		case "postHook":
+			op.F.PostHook = "fail"
+		case "delete":
+			op.F.Delete = "fail"
+		}
+		return op
+	}
+	for _, f := range []string{"none", "preHook", "resources", "wait", "postHook"} {
+		for _, nh := range bools {
+			for _, hc := range bools {
+				for _, a := range bools {
+					for _, c := range bools {
+						out = append(out, fault(actOp{Kind: "upgrade", Atomic: a, CleanupOnFail: c, DisableHooks: nh, HookCreate: hc}, f))
+					}
+					out = append(out, fault(actOp{Kind: "install", Atomic: a, DisableHooks: nh, HookCreate: hc}, f))
+					out = append(out, fault(actOp{Kind: "rollback", CleanupOnFail: a, DisableHooks: nh, HookCreate: hc}, f))
+				}
+			}
+		}
+	}
+	for _, f := range []string{"none", "preHook", "delete", "postHook"} {
+		for _, nh := range bools {
+			for _, hc := range bools {
+				for _, kh := range bools {
+					out = append(out, fault(actOp{Kind: "uninstall", KeepHistory: kh, DisableHooks: nh, HookCreate: hc}, f))
+				}
+			}
+		}
+	}
+	return out
+}
+
+// runHistoryMatrix: install, upgrade (both healthy, hooks on), then the probe operation (an install probe runs on
+// the empty history)
+func runHistoryMatrix(m *Model, rep *Report, r *Rng, k int, seed uint64, idx int) {
+	mx := actMatrix()
+	if k >= len(mx) {
+		return
+	}
+	probe := mx[k]
+	nops := 3
+	if probe.Kind == "install" {
+		nops = 1
+	}
+	longPlan = func(j int, op *actOp) {
+		pl := op.Payload
+		switch {
+		case j == nops-1:
+			*op = probe
+		case j == 0:
+			*op = actOp{Kind: "install"}
+		default:
+			*op = actOp{Kind: "upgrade"}
+		}
+		op.Payload = pl
+	}
+	defer func() { longPlan = nil }()
+	rep.H("matrix:" + probe.Kind)
+	runHistory(m, rep, r, []string{"secrets", "configmaps"}[k%2], 0, nops, seed, idx)
 }
 
 // longPlan: when set, operation k of the history is overridden (long fault-free chains under a limit)
@@ -390,9 +477,24 @@ func runHistory(m *Model, rep *Report, r *Rng, backend string, faultLevel, nops 
 		payload++
 		hist = append(hist, op)
 		before := implLedger(w)
+		w.api.mu.Lock()
+		t0 := len(w.api.trace)
+		w.api.mu.Unlock()
 		err, pan := runActOp(w, op)
 		after := implLedger(w)
 		cs := map[string]any{"backend": backend, "history": hist}
+		// C12: with hooks disabled no hook object is created or deleted -- by the operation or by the
+		// uninstall / rollback it runs on failure (--atomic)
+		if op.DisableHooks {
+			w.api.mu.Lock()
+			for _, ev := range w.api.trace[t0:] {
+				if strings.Contains(ev, "/hook-") {
+					rep.Issue(Issue{Kind: "monitor", Fingerprint: "C12:hooks-disabled-but-run:" + op.Kind, What: "the operation ran with hooks disabled and yet sent " + ev, Case: cs, Seed: seed, Index: idx})
+					break
+				}
+			}
+			w.api.mu.Unlock()
+		}
 		if pan != "" {
 			rep.Issue(Issue{Kind: "monitor", Fingerprint: "C20:panic:action:" + op.Kind, What: pan, Case: cs, Seed: seed, Index: idx})
 			return
